@@ -1231,7 +1231,10 @@ impl<T: TypeConfig> RaftRoleState for LeaderState<T> {
                         "my({}) term < request one, now I will step down to Follower",
                         my_id
                     );
-                    //TODO: if there is a bug?  self.update_current_term(vote_request.term);
+                    // Adopt the new leader's term before stepping down: BecomeFollower(Some(leader))
+                    // publishes {leader, current_term} to the leader-change listeners, and the sender
+                    // leads the request's term, not the term this node was leader of.
+                    self.update_current_term(append_entries_request.term);
                     // Revoke lease immediately — window-period fix (see VoteRequest branch).
                     self.shared_state.lease.revoke();
                     self.send_become_follower_event(
